@@ -129,6 +129,9 @@ def _sweep_space():
                 items.append((b, start, "one", "dataset_default", ok, 5))
             for seq in REUSE_SEQS:
                 items.append((b, start, "several", "reuse:" + "/".join(seq), "given", 0))
+            if start == "warmed":
+                for ti in range(3, len(TITLES)):
+                    items.append((b, start, "one", "dataset_default", "given", 0, ti))
     return items
 
 
@@ -144,16 +147,27 @@ def plan(prop, tier, seed):
     return len(_sweep_space()) + N_SEEDED[tier]
 
 
-def _op(backend, files, image, outdir, plan_, io_fault=None, md_extra=0, chained=None, reuse=None):
-    """reuse = index (in execution order) of an earlier execution whose *dataset object* runs this query too."""
+TITLES = [None, None, None, "my query", "ttbar/nominal", "x" * 300, "../escape", "naïve ✓ title"]
+
+
+def _op(backend, files, image, outdir, plan_, io_fault=None, md_extra=0, chained=None, reuse=None, title=None):
+    """reuse = index (in execution order) of an earlier execution whose *dataset object* runs this query too.
+    title = the free-text title func_adl hands to execute_result_async (value_async(title=...))."""
     return {"op": "execute", "backend": backend, "files": files, "image": image, "outdir": outdir, "plan": plan_,
-            "io_fault": io_fault, "md_extra": md_extra, "chained": chained, "reuse": reuse}
+            "io_fault": io_fault, "md_extra": md_extra, "chained": chained, "reuse": reuse, "title": title}
 
 
 def make_case(prop, tier, seed, i):
     sweep = _sweep_space()
     if i < len(sweep):
-        b, start, fc, im, ok, si = sweep[i]
+        ti = None
+        if len(sweep[i]) == 7:
+            b, start, fc, im, ok, si, ti = sweep[i]
+        else:
+            b, start, fc, im, ok, si = sweep[i]
+        if ti is not None:
+            return {"engine": NAME, "prop": prop, "seed": seed, "run": i, "kind": "sweep", "start_state": start,
+                    "groups": [[_op(b, fc, im, ok, plan_shapes()[si], title=TITLES[ti])]]}
         if im.startswith("reuse:"):
             seq = im[6:].split("/")
             first_im = seq[0] if seq[0].startswith("md_") else seq[0]
@@ -215,7 +229,8 @@ def make_case(prop, tier, seed, i):
             while ops[reuse]["reuse"] is not None:
                 reuse = ops[reuse]["reuse"]
             b, fc, ok = ops[reuse]["backend"], ops[reuse]["files"], ops[reuse]["outdir"]
-        ops.append(_op(b, fc, im, ok, pl, io_fault, md_extra=rng.choice([0, 0, 1, 2]), chained=chained, reuse=reuse))
+        ops.append(_op(b, fc, im, ok, pl, io_fault, md_extra=rng.choice([0, 0, 1, 2]), chained=chained, reuse=reuse,
+                       title=rng.choice(TITLES)))
     # group: mostly one at a time; sometimes several executions started as tasks of one loop
     groups = []
     j = 0
@@ -237,7 +252,9 @@ class Ledger:
         self._orig = tempfile.mkdtemp
 
     def mkdtemp(self, suffix=None, prefix=None, dir=None):
-        d = os.path.join(self.base, f"tmpdir-{len(self.dirs)}")
+        # deterministic names, but prefix / suffix / dir are honoured as the real mkdtemp honours them
+        name = f"{prefix if prefix is not None else 'tmp'}dir-{len(self.dirs)}{suffix or ''}"
+        d = os.path.join(dir if dir is not None else self.base, name)
         os.mkdir(d, 0o700)
         self.dirs.append(d)
         return d
@@ -602,7 +619,7 @@ def _child(case):
         elif op.get("io_fault"):
             armed["open"] = op["io_fault"]
         try:
-            r = await s.value_async()
+            r = await (s.value_async() if op.get("title") is None else s.value_async(title=op["title"]))
             rec["execute"] = "ok"
             rec["returned"] = [str(x) for x in r] if isinstance(r, (list, tuple)) else repr(r)
             # read the returned file now: executions of one group that share an output directory overwrite
@@ -670,7 +687,7 @@ def digest(rec):
     op = rec["op"]
     return {"backend": op["backend"], "files": op["files"], "image": op["image"], "outdir": op["outdir"],
             "plan": [len(op["plan"]["chunks"]), op["plan"]["result_at"], op["plan"]["fail_at"], len(op["plan"]["extra"])],
-            "io_fault": op.get("io_fault"), "chained": rec.get("chained"), "construct": rec.get("construct"),
+            "io_fault": op.get("io_fault"), "title": (op.get("title") or "")[:20] or None, "chained": rec.get("chained"), "construct": rec.get("construct"),
             "execute": rec.get("execute"), "calls": [c["image"] for c in rec["calls"]],
             "returned": [os.path.basename(x) for x in rec.get("returned", [])] if isinstance(rec.get("returned"), list) else rec.get("returned")}
 
@@ -768,7 +785,7 @@ def judge(rec, viols, bump, states, nontrivial, start_state, real_open):
         has_result = plan_["result_at"] is not None and (plan_["fail_at"] is None or plan_["result_at"] <= plan_["fail_at"])
     binary_left = any(k == "binary" for _, k, _ in plan_["extra"]) and not op.get("chained")
     new_files = sorted(set(rec["outdir_after"] or []) - set(rec["outdir_before"] or [])) if rec["outdir_after"] is not None else []
-    new_files = [f for f in new_files if not f.startswith("tmpdir-")]
+    new_files = [f for f in new_files if "dir-" not in f]
     if failed:
         bump("reach:container_failed")
         if rec["execute"] == "ok":
